@@ -14,6 +14,15 @@ VERIF = os.path.dirname(os.path.dirname(os.path.dirname(os.path.abspath(__file__
 COQ = os.path.join(VERIF, "coq")
 BUILD = os.path.join(VERIF, "build")
 LOGICAL = "HV"
+# scratch files of a run (generated .v files, child-process job files ...).  One root per tree under test, so that
+# checks of scratch worktrees (seeded changes, proposed repairs) running at the same time as a check of /repo never
+# share files; harness/main.py holds a lock per (tree, property) for the rest.
+_TREE = os.path.realpath(os.environ.get("HOLOPY_REPO", "/repo"))
+if _TREE == os.path.realpath("/repo"):
+    RUN_ROOT = os.path.join(BUILD, "run")
+else:
+    import hashlib as _hl
+    RUN_ROOT = os.path.join(BUILD, "alt", _hl.sha1(_TREE.encode()).hexdigest()[:10], "run")
 
 
 def _run(cmd, cwd, timeout):
@@ -166,7 +175,7 @@ Open Scope Z_scope.
 def eval_files(pid, files, jobs=16, timeout=900):
     """files: list of (name, text). Compiles each with coqc in build/run/<pid>/, in parallel.
     Returns list of (name, rc, output)."""
-    rundir = os.path.join(BUILD, "run", pid)
+    rundir = os.path.join(RUN_ROOT, pid)
     os.makedirs(rundir, exist_ok=True)
     for f in os.listdir(rundir):
         try:
